@@ -110,3 +110,108 @@ class Injector:
 
 
 EXC = {'interrupt': KeyboardInterrupt, 'alloc_fail': MemoryError}
+
+
+class Interleaver:
+    """Caller threads as simulated nodes (DESIGN §8.8): runs each fn of `fns` on its own real thread, but exactly one thread holds
+    the baton at any time and every hand-over is decided by the plan: the running thread is parked after quanta[0] injection points
+    (same point set as Injector: entry / back-edge / return of numqi code), the next unfinished thread runs for quanta[1] points,
+    and so on; when the quanta are used up the holder runs to completion, then the others in index order. Real threads are only
+    the vehicle (each keeps its own Python stack); which one runs is never the OS's or the GIL's choice, so a schedule is a pure
+    function of (fns, quanta) and replays exactly."""
+
+    def __init__(self):
+        self.points = 0
+        self.switches = 0
+
+    def run(self, fns, quanta, timeout=50.0):
+        import threading
+        n = len(fns)
+        cv = threading.Condition()
+        tl = threading.local()
+        st = {'turn': 0, 'qi': 0, 'left': (quanta[0] if quanta else None), 'done': [False] * n}
+        results = [None] * n
+        me_self = self
+        self.points = 0
+        self.switches = 0
+
+        def hand_over(me):
+            nxt = [j for j in list(range(me + 1, n)) + list(range(0, me)) if not st['done'][j]]
+            if not nxt:
+                return False
+            st['turn'] = nxt[0]
+            return True
+
+        def point():
+            me = getattr(tl, 'idx', None)
+            if me is None:
+                return
+            me_self.points += 1
+            if st['left'] is None:
+                return
+            st['left'] -= 1
+            if st['left'] > 0:
+                return
+            st['qi'] += 1
+            st['left'] = quanta[st['qi']] if st['qi'] < len(quanta) else None
+            with cv:
+                if hand_over(me):
+                    me_self.switches += 1
+                    cv.notify_all()
+                    while st['turn'] != me:
+                        cv.wait()
+
+        def on_start(code, offset):
+            if not _is_numqi(code):
+                return _M.DISABLE
+            point()
+
+        def on_return(code, offset, retval):
+            if not _is_numqi(code):
+                return _M.DISABLE
+            point()
+
+        def on_jump(code, offset, dest):
+            if not _is_numqi(code):
+                return _M.DISABLE
+            if dest < offset and offset in _backedge_offsets(code):
+                point()
+
+        def body(i):
+            with cv:
+                while st['turn'] != i:
+                    cv.wait()
+            tl.idx = i
+            try:
+                results[i] = ('ok', fns[i]())
+            except BaseException as e:  # the SUT's exception under this schedule is a result, not a harness failure
+                results[i] = ('exc', e)
+            finally:
+                tl.idx = None
+                with cv:
+                    st['done'][i] = True
+                    hand_over(i)
+                    cv.notify_all()
+
+        ev = _M.events
+        _M.use_tool_id(_TOOL, 'simkit-threads')
+        threads = [threading.Thread(target=body, args=(i,), name=f'simkit-caller-{i}', daemon=True) for i in range(n)]
+        try:
+            _M.register_callback(_TOOL, ev.PY_START, on_start)
+            _M.register_callback(_TOOL, ev.PY_RETURN, on_return)
+            _M.register_callback(_TOOL, ev.JUMP, on_jump)
+            _M.set_events(_TOOL, ev.PY_START | ev.PY_RETURN | ev.JUMP)
+            _M.restart_events()
+            for t in threads:
+                t.start()
+            for t in threads:
+                t.join(timeout)
+                if t.is_alive():
+                    raise RuntimeError('simkit Interleaver: a caller thread did not finish (harness error)')
+        finally:
+            _M.set_events(_TOOL, 0)
+            _M.register_callback(_TOOL, ev.PY_START, None)
+            _M.register_callback(_TOOL, ev.PY_RETURN, None)
+            _M.register_callback(_TOOL, ev.JUMP, None)
+            _M.free_tool_id(_TOOL)
+        return results
